@@ -66,8 +66,13 @@ def run(prog, rep, tier):
     if len(draws) == 1:
         b, extra = api.bind_slots(api.SLOTS["numpy.random.normal"], draws[0].args, draws[0].kwargs)
         ok = b.get("loc") == ("param", "mean") and b.get("scale") is not None and is_sd_of(b["scale"], ("param", "var")) and b.get("size") == ("param", "n")
-    rep.check("UNIT.noise-normal", ok, fwhere(f3), "noise.normal(mean, var) draws normal(loc=mean, scale=var**0.5, size=n)",
-              "noise.normal does not pass the standard deviation var**0.5 as scale")
+    opaque = [c for c in facts if c.kind == "call" and (c.callkind == "opaque" or c.target in ("getattr", "operator.attrgetter", "operator.methodcaller"))]
+    if not draws and opaque:
+        rep.unk("UNIT.noise-normal", fwhere(f3), "noise.normal calls a sampler that is looked up at run time (%s): what it is handed is not read" % opaque[0].target)
+        ok = None
+    if ok is not None:
+      rep.check("UNIT.noise-normal", ok, fwhere(f3), "noise.normal(mean, var) draws normal(loc=mean, scale=var**0.5, size=n)",
+                "noise.normal does not pass the standard deviation var**0.5 as scale")
     # no branch / index of the computation may depend on the *values* of the moments
     pattern_method(prog, rep, ND + "sample", ["mean", "covariance"], rule="NODECISION")
     rep.require_count("SLOTS", 1)
